@@ -9,9 +9,10 @@ from tools import sim, vlib
 
 class SimSpec(vlib.Spec):
     """shared by C36 (and reused by C37/C38 for the correspondence part)"""
-    model_vo = ["theories/Sim/Run.vo"]
+    model_vo = ["theories/Sim/Run.vo", "theories/Sim/ModelTop.vo"]
     crate, group, binary = "h_sim", "hydro", "h_sim"
-    imports = "From Coq Require Import List NArith.\nFrom HV Require Import Sim.Model Sim.Run.\nImport ListNotations."
+    imports = ("From Coq Require Import List NArith.\nFrom HV Require Import Sim.Model Sim.Run Sim.ModelTop.\n"
+               "Import ListNotations.")
     harness_shards = 4
     prop_id = "C36"
 
@@ -68,6 +69,48 @@ class SimSpec(vlib.Spec):
                 for ds in scripts[:3]:
                     cases.append({"k": "hook", "hook": h, "src": "mut",
                                   "rounds": [{"push": [], "force": force, "ds": sim.mutate_script(rng, ds)}]})
+        # 1b. top-level (observation) hooks and inline hooks: every decision string
+        tl = 4 if thorough else 3
+        tops = []
+        for ql in range(tl + 1):
+            q = [10 * (i + 1) for i in range(ql)]
+            tops.append({"kind": "top_order", "q": q, "tr": None})
+            tops.append({"kind": "top_fold", "q": q, "tr": None})
+            for n2 in range(3):
+                if ql <= 2:
+                    tops.append({"kind": "top_merge", "q": q, "q2": [7 * (i + 1) for i in range(n2)]})
+        tops.append({"kind": "top_fold", "q": [1, 1, 2], "tr": None})
+        for h in tops:
+            for force in (False, True):
+                scripts = sim.top_scripts(h, force, cap)
+                for ds in scripts:
+                    cases.append({"k": "hook", "hook": h, "src": "top",
+                                  "rounds": [{"push": [], "force": force, "ds": ds}]})
+                for ds in scripts[:2]:
+                    cases.append({"k": "hook", "hook": h, "src": "mut",
+                                  "rounds": [{"push": [], "force": force, "ds": sim.mutate_script(rng, ds)}]})
+        inl = []
+        for ql in range(tl + 2):
+            inl.append({"k": "inline", "kind": "shuffle", "input": [10 * (i + 1) for i in range(ql)]})
+        inl.append({"k": "inline", "kind": "shuffle", "input": [1, 1, 2]})
+        for a in range(4):
+            for b in range(3):
+                inl.append({"k": "inline", "kind": "merge", "first": [10 * (i + 1) for i in range(a)],
+                            "second": [7 * (i + 1) for i in range(b)]})
+        for c in inl:
+            scripts = sim.inline_scripts(c, cap)
+            for ds in scripts:
+                cases.append(dict(c, ds=ds, src="inline"))
+            for ds in scripts[:2]:
+                cases.append(dict(c, ds=sim.mutate_script(rng, ds), src="mut"))
+        for _ in range(n // 6):
+            if rng.chance(1, 2):
+                cases.append({"k": "inline", "kind": "shuffle", "src": "rnd", "ds": [], "seed": rng.next() >> 11,
+                              "input": [rng.below(9) for _ in range(rng.below(9))]})
+            else:
+                cases.append({"k": "inline", "kind": "merge", "src": "rnd", "ds": [], "seed": rng.next() >> 11,
+                              "first": [rng.below(9) for _ in range(rng.below(7))],
+                              "second": [rng.below(9) for _ in range(rng.below(7))]})
         # 2. every decision string of run_hooks on small ticks
         ticks = [
             [{"kind": "stream_t", "q": [10, 20], "tr": None}, {"kind": "stream_n", "q": [1, 2], "tr": None}],
@@ -125,6 +168,8 @@ class SimSpec(vlib.Spec):
 
     # ------------------------------------------------------------------ evaluation
     def to_coq(self, case, res):
+        if case["k"] == "inline":
+            return sim.case_term(case, res)
         if "rounds" not in res:
             return 3
         return sim.case_term(case, res)
@@ -146,6 +191,8 @@ class SimSpec(vlib.Spec):
 
     def nontrivial(self, case, res):
         """some round actually released something"""
+        if case["k"] == "inline":
+            return bool(res.get("ds_used"))
         for r in res.get("rounds", []):
             em = r.get("emitted")
             if em and (any(em) if case["k"] == "tick" else True):
@@ -164,6 +211,11 @@ class SimSpec(vlib.Spec):
         for c, r in zip(cases, results):
             inc(d["by_kind"], c["k"])
             inc(d["by_src"], c.get("src", "corpus"))
+            if c["k"] == "inline":
+                inc(d["hook_kinds"], "inline_" + c["kind"])
+                inc(d["outcomes"], "bad_script" if r.get("bad") else ("panic" if "panic" in r else "ok"))
+                inc(d["script_len"], len(r.get("ds_used", [])))
+                continue
             for h in ([c["hook"]] if c["k"] == "hook" else c["hooks"]):
                 inc(d["hook_kinds"], h["kind"])
                 inc(d["queue_len"], len(h["q"]) if "q" in h else sum(len(q) for _, q in h["m"]))
@@ -178,7 +230,9 @@ class C36(SimSpec):
     theorems = ["C36_total_prefix", "C36_noorder_subsequence", "C36_keyed_total_per_key",
                 "C36_keyed_noorder_per_key", "C36_single_monotone", "C36_single_versions",
                 "C36_pass_latest", "C36_ksingle_per_key", "C36_run_hooks_releases_new",
-                "C36_can_run_iff", "C36_run_hooks_no_panic_refuted"]
+                "C36_can_run_iff", "C36_run_hooks_no_panic_refuted", "C36_top_order_sound",
+                "C36_top_fold_sound", "C36_top_merge_sound", "C36_inline_shuffle_perm",
+                "C36_inline_merge_interleaves"]
     trusted_base = ["coqc 8.16.1 kernel (vm_compute used for case evaluation only)",
                     "hand-written Gallina model coq/theories/Sim/Model.v of sim/runtime.rs hooks and compiled.rs run_hooks",
                     "correspondence harness harness/h_sim (scripted bolero DynDriver) + tools/sim.py",
@@ -189,7 +243,7 @@ class C36(SimSpec):
         "usize underflow modelled as panic (debug-profile overflow checks)",
         "verif_can_run re-states SimTick::can_run on a bare hook list (SimTick needs a DFIR); a change to can_run itself is not seen",
         "tick-level property assumes idle hooks and can_run; the PassthroughSingletonHook-with-empty-queue panic is a recorded finding (re-derived on every run)",
-        "TopLevel*Hook / inline (ObserveNonDet) hooks are not modelled",
+        "unkeyed TopLevel hooks (order, fold, merge_ordered) and inline hooks (StreamOrder, MergeOrdered) are modelled; the keyed TopLevel/inline kinds (6 of 18 hook kinds) are not",
     ]
     rule = ("hook or tick (list of hooks under run_hooks) + rounds of (push, force, decision script); exhaustive: every "
             "decision string of every small configuration (queue length <= 3 quick / 4 thorough) per hook kind and of "
